@@ -798,7 +798,7 @@ class EvolutionSuperOperator(SuperOperator, TimeDependent, Saveable):
                 rhot = ReducedDensityMatrixEvolution(timeaxis=self.time,
                                                      rhoi=target)
                 k_i = 0
-                for tt in time.data:
+                for tt in self.time.data:
                     rhot.data[k_i,:,:] = \
                     numpy.tensordot(self.data[k_i,:,:,:,:],
                                     target.data)
